@@ -38,7 +38,7 @@ ASSUMPTIONS = ["assembled quantities compared with |got-ref| <= 1e-8*max(1,|ref|
 QUICK_JOBS = 16
 MIN_MONITORS = {"*": {"D.vs_ref": 2, "F.vs_ref": 2, "F.symmetric": 2, "formalisms.D": 1, "formalisms.F": 1,
                       "formalisms.reconstruction": 1, "formalisms.mapped": 1, "factory.formalism": 1, "blocks.order": 1,
-                      "operated.vs_ref": 1, "mapped.vs_ref": 1, "DF.after_solve": 1, "dataset_reused.other_objects": 20, "dataset_derived.after_w_tilde": 20, "dataset_interface.changed_data": 20}}
+                      "operated.vs_ref": 1, "mapped.vs_ref": 1, "DF.after_solve": 1, "dataset_reused.other_objects": 20, "dataset_derived.after_w_tilde": 20, "dataset_interface.changed_data": 20, "with_library_preloads": 20}}
 RT = 1e-8
 
 
@@ -247,6 +247,35 @@ def run_case(ctx, i):
             if ok:
                 ctx.check(relclose(DF[0], Drefi, RT) and relclose(DF[1], Frefi, RT), "dataset_interface.changed_data", formalism="w_tilde" if use_w else "mapping",
                           got_D=DF[0], expected_D=Drefi, D_of_the_original_data=Dref, **W)
+    # the normal equations of a later fit that takes the library's own preloads (filled by Preloads.set_* from two earlier, identical
+    # fits): still B^T N^-1 d and B^T N^-1 B of the objects in their order; function lists alone with a w-tilde preload switch included
+    if i % 4 == 1:
+        class FitLike:
+            def __init__(self, inv_, ds_):
+                self.inversion, self.dataset, self.noise_map = inv_, ds_, ds_.noise_map
+        fobjs, fdesc = gen_aa.linear_objects(aa, rng, case, nobj=int(rng.integers(1, 4)), kinds=("func",), overrides=True)
+        for which, objs_p, desc_p in (("same_objects", objs, desc), ("function_lists_only", fobjs, fdesc)):
+            Bp, Drefp, Frefp, _ = reference(case, objs_p, diag)
+            for use_w in (False, True):
+                st = aa.SettingsInversion(use_w_tilde=use_w, use_positive_only_solver=False, no_regularization_add_to_curvature_diag_value=diag)
+
+                def with_library_preloads():
+                    f0 = FitLike(aa.Inversion(dataset=case["ds"], linear_obj_list=objs_p, settings=st), case["ds"])
+                    f1 = FitLike(aa.Inversion(dataset=case["ds"], linear_obj_list=objs_p, settings=st), case["ds"])
+                    pre = aa.Preloads()
+                    for prod in ("set_w_tilde_imaging", "set_linear_func_inversion_dicts"):
+                        try:
+                            getattr(pre, prod)(f0, f1)
+                        except Exception:
+                            ctx.skipped["library_preloads:producer_raised:" + prod] += 1
+                    if which == "function_lists_only":
+                        pre.use_w_tilde = True          # what set_w_tilde_imaging leaves behind after any fit with a mapper and a fixed noise map
+                    v = aa.Inversion(dataset=case["ds"], linear_obj_list=objs_p, settings=st, preloads=pre)
+                    return _np(v.data_vector).copy(), _np(v.curvature_matrix).copy()
+                ok, DF = ctx.guarded("with_library_preloads", with_library_preloads)
+                if ok:
+                    ctx.check(relclose(DF[0], Drefp, RT) and relclose(DF[1], Frefp, RT), "with_library_preloads", objects_used=which, formalism_requested="w_tilde" if use_w else "mapping",
+                              objects_of_this_inversion=desc_p, got_D=DF[0], expected_D=Drefp, **W)
     k = case["k"]
     cls = ["kernel:%s" % case["kernel_kind"], "kshape:%dx%d" % k.shape, "data:%s" % case["data_kind"], "nobj:%d" % len(objs),
            "objs:" + "+".join(d["kind"] for d in desc)]
